@@ -189,6 +189,9 @@ type Req struct {
 	IfNoneMatch string `json:"if_none_match,omitempty"`
 	FailAfter   *int   `json:"fail_after,omitempty"` // PUT: body reader fails after this many bytes
 	FailKind    string `json:"fail_kind,omitempty"`
+	// PUT: the request context is cancelled after this many body bytes while
+	// the body is still delivered completely (the client went away late).
+	CancelAfter *int `json:"cancel_after,omitempty"`
 }
 
 func (r Req) String() string {
@@ -221,6 +224,9 @@ func (r Req) String() string {
 	}
 	if r.FailAfter != nil {
 		fmt.Fprintf(&b, " fail@%d(%s)", *r.FailAfter, r.FailKind)
+	}
+	if r.CancelAfter != nil {
+		fmt.Fprintf(&b, " cancel@%d", *r.CancelAfter)
 	}
 	return b.String()
 }
@@ -398,6 +404,15 @@ func Apply(t *Node, r Req) Outcome {
 				o.Success = []Alt{{Codes: []int{200, 204}, Tree: nt}}
 			} else {
 				o.Success = []Alt{{Codes: []int{201}, Tree: nt}}
+			}
+			if r.CancelAfter != nil {
+				// the context was cancelled while the complete body arrived:
+				// the server may carry the request out or fail it cleanly
+				o.Any4xx = true
+				for c := 500; c <= 599; c++ {
+					ref.codes = append(ref.codes, c)
+				}
+				ref.why = append(ref.why, "request context cancelled during the upload")
 			}
 		}
 		return finish()
